@@ -179,6 +179,14 @@ FIXED = [
     ("quarter circle x inner chord (disjoint, overlapping boxes)", _bez([(1, 0), (1, 1), (0, 1)], [1, S2, 1]),
      _bez([(0.5, 0), (0, 0.5)]), "disjoint"),
     ("parabola x parabola", _bez([(0, 0), (1, 2), (2, 0)]), _bez([(0, 1), (1, -1), (2, 1)]), "meet"),
+    # straight segments stored as rational quadratics with an interior knot of multiplicity < degree (collinear, monotone
+    # control points: the curve runs along the segment once), and a rational arc with such a knot
+    ("rational quadratic straight segment with an interior knot x segment",
+     ([0.0] * 3 + [0.5] + [1.0] * 3, [(0, 0), (0.5, 0.5), (1.5, 1.5), (2, 2)], [1, 2, 3, 1]), _bez([(0, 2), (2, 0)]), "meet"),
+    ("rational quadratic straight segment with an interior knot x far segment",
+     ([0.0] * 3 + [0.5] + [1.0] * 3, [(0, 0), (0.5, 0.5), (1.5, 1.5), (2, 2)], [1, 2, 3, 1]), _bez([(5, 5), (6, 7)]), "disjoint"),
+    ("rational arc with an interior knot x diagonal",
+     ([0.0] * 3 + [0.5] + [1.0] * 3, [(1, 0), (1, 0.5), (0.5, 1), (0, 1)], [1, 0.8, 0.8, 1]), _bez([(0, 0), (1, 1)]), "meet"),
     ("segment x segment (degree-2 representation)", _bez([(0, 0), (1, 1), (2, 2)]), _bez([(0, 2), (2, 0)]), "meet"),
 ]
 PROBE_SEGS = [((0, 1), (3, 2)), ((1, 0), (2, 3)), ((0, 0), (3, 3)), ((0, 3), (3, 0)), ((1, 1), (1, 2)), ((-1, -1), (-2, -3)),
